@@ -103,6 +103,16 @@ func VerifH_C09_kv_history() {
 			symAssert(present, "version-superseded-after-cutoff-is-kept")
 		}
 	}
+	// the current version stays, unless it is empty and older than the cutoff
+	// (an empty version is as good as none; a younger one is still the only
+	// link to the history a later vacuum has to find)
+	if len(chain) > 0 {
+		last := chain[len(chain)-1]
+		_, present := bkt.objs["kvp/root/current/"+last.name]
+		if db.Size() > 0 || last.created > cut {
+			symAssert(present, "current-version-is-kept")
+		}
+	}
 	// every version object that is still there is fully readable
 	for _, pfx := range []string{"kvp/root/current/", "kvp/root/merged/"} {
 		for _, name := range bkt.names(pfx) {
